@@ -37,6 +37,14 @@ func (t *tr) closure(fl *ast.FuncLit) string {
 			return t.bad("closure with unnamed parameters", fl)
 		}
 		for _, n := range f.Names {
+			if bt, typed := sp.ClosureBinderTypes[exprString(f.Type)]; typed {
+				nm := "_"
+				if n.Name != "_" {
+					nm = t.ident(n.Name)
+				}
+				names = append(names, "("+nm+" : "+bt+")")
+				continue
+			}
 			if n.Name == "_" {
 				names = append(names, "_")
 				continue
